@@ -69,6 +69,15 @@ func HashFor(name string, cap0 int) hash.HashFunc[int] {
 		return func(k int) uint64 { return ^uint64(k) }
 	case "hi": // all the entropy in the high half
 		return func(k int) uint64 { return uint64(k) << 32 }
+	case "libslice": // the library's hash functions on the representations of types.go (also usable with ktype=int)
+		h := hash.HashFuncForIntSlice[[]int](nil)
+		return func(k int) uint64 { return h(sliceKey(k)) }
+	case "libstruct":
+		hi, hs := hash.HashFuncForInt[int](nil), hash.HashFuncForString[string](nil)
+		return func(k int) uint64 { return hi(k) ^ hs(strconv.Itoa(k)) }
+	case "libstr":
+		hs := hash.HashFuncForString[string](nil)
+		return func(k int) uint64 { return hs(strconv.Itoa(k)) }
 	case "pow": // one bit set
 		return func(k int) uint64 { return uint64(1) << uint(((k%64)+64)%64) }
 	default:
@@ -102,8 +111,9 @@ type keyCodec[K comparable] struct {
 	show    func(K) string
 	dig     func(K) uint64
 	hashFor func(name string, cap0 int) hash.HashFunc[K]
-	dump    func(t symboltable.SymbolTable[K, int]) string
 	ofInt   func(n int) K // the key a bulk op uses for the number n
+	// newTable builds a table (ktype / vtype: how keys and values are represented in Go, see types.go)
+	newTable func(comp, ktype, vtype, hname string, cap0 int, eqv func(a, b int) bool, o symboltable.HashOpts, pp *ptrPool) tbl[K]
 }
 
 var intCodec = keyCodec[int]{
@@ -111,8 +121,10 @@ var intCodec = keyCodec[int]{
 	show:    strconv.Itoa,
 	dig:     func(k int) uint64 { return uint64(k) },
 	hashFor: HashFor,
-	dump:    func(t symboltable.SymbolTable[int, int]) string { return symboltable.VerifHashDump(t) },
 	ofInt:   func(n int) int { return n },
+	newTable: func(comp, ktype, vtype, hname string, cap0 int, eqv func(a, b int) bool, o symboltable.HashOpts, pp *ptrPool) tbl[int] {
+		return newIntTable(comp, ktype, vtype, hname, HashFor(hname, cap0), eqv, o, pp)
+	},
 }
 
 // ShowBytes renders a string key as `x` + two lower-case hex digits per byte.
@@ -145,26 +157,31 @@ var strCodec = keyCodec[string]{
 	dig:     BytesDig,
 	hashFor: hashForStr,
 	ofInt:   strconv.Itoa,
-	dump: func(t symboltable.SymbolTable[string, int]) string {
-		s, ok := symboltable.VerifHashSlots(t)
-		if !ok {
-			return "not-a-hash-table"
-		}
-		var b strings.Builder
-		fmt.Fprintf(&b, "%s m=%d n=%d u=%d p=%d [", s.Kind, s.M, s.N, s.U, s.P)
-		for i, e := range s.Slots {
-			if i > 0 {
-				b.WriteByte(' ')
-			}
-			flag := "L"
-			if e.Deleted {
-				flag = "D"
-			}
-			fmt.Fprintf(&b, "%d:(%s,%d,%s)", e.Index, ShowBytes(e.Key), e.Val, flag)
-		}
-		b.WriteByte(']')
-		return b.String()
+	newTable: func(comp, ktype, vtype, hname string, cap0 int, eqv func(a, b int) bool, o symboltable.HashOpts, pp *ptrPool) tbl[string] {
+		return newStrTable(comp, hashForStr(hname, cap0), eqv, o)
 	},
+}
+
+// dumpOf renders the internal state of a table: `quadratic m=31 n=1 u=2 p=0 [12:(3,7,L) 15:(4,1,D)]`.
+func dumpOf[K comparable](t tbl[K], kc *keyCodec[K]) string {
+	s := t.State()
+	if s.Kind == "" {
+		return "not-a-hash-table"
+	}
+	var b strings.Builder
+	fmt.Fprintf(&b, "%s m=%d n=%d u=%d p=%d [", s.Kind, s.M, s.N, s.U, s.P)
+	for i, e := range s.Slots {
+		if i > 0 {
+			b.WriteByte(' ')
+		}
+		flag := "L"
+		if e.Deleted {
+			flag = "D"
+		}
+		fmt.Fprintf(&b, "%d:(%s,%d,%s)", e.Index, kc.show(e.Key), e.Val, flag)
+	}
+	b.WriteByte(']')
+	return b.String()
 }
 
 func parseLF(s string) float32 {
@@ -209,21 +226,6 @@ func MinCap(comp string) int {
 	return 31
 }
 
-func newTable[K comparable](comp string, h hash.HashFunc[K], o symboltable.HashOpts) symboltable.SymbolTable[K, int] {
-	eqK := func(a, b K) bool { return a == b }
-	switch comp {
-	case "chain":
-		return symboltable.NewChainHashTable[K, int](h, eqK, eqInt, o)
-	case "linear":
-		return symboltable.NewLinearHashTable[K, int](h, eqK, eqInt, o)
-	case "quadratic":
-		return symboltable.NewQuadraticHashTable[K, int](h, eqK, eqInt, o)
-	case "double":
-		return symboltable.NewDoubleHashTable[K, int](h, eqK, eqInt, o)
-	}
-	panic("unknown component " + comp)
-}
-
 const (
 	fnvOffset = 14695981039346656037
 	fnvPrime  = 1099511628211
@@ -238,8 +240,8 @@ type snapshot struct {
 	longestWalk int
 }
 
-func snap[K comparable](t symboltable.SymbolTable[K, int], kc *keyCodec[K]) snapshot {
-	s, _ := symboltable.VerifHashSlots(t)
+func snap[K comparable](t tbl[K], kc *keyCodec[K]) snapshot {
+	s := t.State()
 	d := uint64(fnvOffset)
 	step := func(x uint64) { d = (d ^ x) * fnvPrime }
 	sn := snapshot{m: s.M, n: s.N, u: s.U, p: s.P, slotsLenOK: s.Len == s.M}
